@@ -375,4 +375,278 @@ Proof.
   - apply (IH (first + 1)). lia.
 Qed.
 
+(** ** (6) the edges only move forward; the live edge follows the availability instants *)
+
+Lemma winStartMS_bounds c now tsbdMS : startS c * 1000 <= now -> 0 <= tsbdMS ->
+  startS c * 1000 <= winStartMS c now tsbdMS <= now /\ now - tsbdMS <= winStartMS c now tsbdMS.
+Proof. unfold winStartMS. lia. Qed.
+
+Theorem edges_monotone c atoMS tsbdMS now1 now2 :
+  0 <= atoMS -> startS c * 1000 <= now1 <= now2 ->
+  window_last r c atoMS now1 <= window_last r c atoMS now2 /\
+  window_first r c atoMS now1 tsbdMS <= window_first r c atoMS now2 tsbdMS.
+Proof.
+  intros Ha [H1 H2]. unfold window_last, window_first. split.
+  - apply lastFin_mono. split; [apply tick_nonneg; lia|apply tick_mono; lia].
+  - apply Z.max_le_compat_l. apply lastFin_mono.
+    split; [apply tick_nonneg; unfold winStartMS; lia|apply tick_mono; unfold winStartMS; lia].
+Qed.
+
+(** segment [n] is inside the live edge exactly from the instant
+    [start + E n / ts - ato] (in ms * ts units) on, for every instant (also before the start) *)
+Theorem edge_step c atoMS now n : 0 <= n ->
+  (n <= window_last r c atoMS now <-> E r n * 1000 <= (now - startS c * 1000 + atoMS) * ts r).
+Proof.
+  intros Hn. unfold window_last. rewrite <- (lastFin_ge_iff _ n Hn). unfold tick.
+  set (X := (now - startS c * 1000 + atoMS) * ts r). clearbody X. lia.
+Qed.
+
+(** hence the edge is [n] exactly between the availability instants of [n] and [n+1] *)
+Theorem edge_eq c atoMS now n : 0 <= n ->
+  (window_last r c atoMS now = n <->
+   E r n * 1000 <= (now - startS c * 1000 + atoMS) * ts r < E r (n + 1) * 1000).
+Proof.
+  intros Hn. pose proof (edge_step c atoMS now n Hn). pose proof (edge_step c atoMS now (n + 1) ltac:(lia)). lia.
+Qed.
+
+(** ... and that instant is the one at which the segment server stops answering "too early" *)
+Theorem edge_checkTime c atoMS now tsbd n : 0 <= atoMS -> 0 <= n ->
+  (phase (checkTime (E r n + startS c * ts r) (ts r) now tsbd (Some atoMS)) = 0 <->
+   window_last r c atoMS now < n).
+Proof.
+  intros Ha Hn. pose proof Hts as Hts'.
+  destruct (checkTime_exact (E r n + startS c * ts r) (ts r) tsbd atoMS now Hts') as (H0 & _ & _).
+  rewrite H0. pose proof (edge_step c atoMS now n Hn) as Hst. unfold availNum.
+  destruct (atoMS >? 0) eqn:E0.
+  - lia.
+  - assert (atoMS = 0) by lia. subst atoMS. lia.
+Qed.
+
+(** ** (5) every listed segment is served, the next one is too early *)
+
+Lemma checkTime_ok A tsc now tsbd atoMS :
+  availNum A tsc (Some atoMS) <= now * tsc ->
+  now * tsc - (tsbd + tsbdMarginS) * 1000 * tsc <= availNum A tsc (Some atoMS) ->
+  checkTime A tsc now tsbd (Some atoMS) = TvOk.
+Proof.
+  unfold availNum, checkTime. intros H1 H2.
+  set (av := A * 1000 - (if atoMS >? 0 then atoMS * tsc else 0)) in *.
+  destruct (av >? now * tsc) eqn:E1; [lia|].
+  destruct (av <? now * tsc - (tsbd + tsbdMarginS) * 1000 * tsc) eqn:E2; [lia|reflexivity].
+Qed.
+
+(** A segment of the window is inside the availability interval of the server. For the first
+    entry this needs the segment after it to be no longer than the margin the server adds to the
+    time-shift buffer (see [first_gone_witness] in props/C02.v). *)
+Theorem listed_available c atoMS now k :
+  startS c * 1000 <= now -> 0 <= tsbdS c -> 0 <= atoMS ->
+  let first := window_first r c atoMS now (1000 * tsbdS c) in
+  let last := window_last r c atoMS now in
+  first <= k <= last ->
+  (first < k \/ E r (first + 1) - S r (first + 1) <= tsbdMarginS * ts r) ->
+  checkTime (E r k + startS c * ts r) (ts r) now (tsbdS c) (Some atoMS) = TvOk.
+Proof.
+  intros Hnow Htsbd Ha. cbv zeta. intros Hk Hshort. pose proof Hts as Hts'.
+  assert (Hk0 : 0 <= k) by (unfold window_first in Hk; lia).
+  pose proof (proj1 (edge_step c atoMS now k Hk0) (proj2 Hk)) as Hup.
+  unfold window_first in *.
+  destruct (winStartMS_bounds c now (1000 * tsbdS c) Hnow ltac:(lia)) as [[Hw1 Hw2] Hw3].
+  set (ws := winStartMS c now (1000 * tsbdS c)) in *. clearbody ws.
+  destruct (lastFin_spec (tick r c atoMS ws) ltac:(apply tick_nonneg; lia)) as (L1 & _ & L3).
+  set (lf := lastFin r (tick r c atoMS ws)) in *. clearbody lf.
+  unfold tick in L3.
+  assert (Hmul : (now - 1000 * tsbdS c - startS c * 1000 + atoMS) * ts r
+                 <= (ws - startS c * 1000 + atoMS) * ts r)
+    by (apply Z.mul_le_mono_nonneg_r; lia).
+  set (X := (ws - startS c * 1000 + atoMS) * ts r) in *. clearbody X.
+  assert (HX : X < 1000 * E r (lf + 1)) by lia.
+  assert (Hlow : X - tsbdMarginS * 1000 * ts r <= E r k * 1000).
+  { unfold tsbdMarginS in *.
+    destruct (Z.lt_ge_cases (Z.max 0 lf) k) as [Hlt|Hge].
+    - pose proof (E_mono (lf + 1) k ltac:(lia)). lia.
+    - assert (k = Z.max 0 lf) by lia. destruct (Z.lt_ge_cases lf 0) as [Hneg|Hpos].
+      + replace (lf + 1) with k in HX by lia. lia.
+      + destruct Hshort as [Hs|Hs]; [lia|]. replace (Z.max 0 lf) with lf in * by lia. subst k.
+        rewrite (S_E_contiguous r loopMS W lf Hpos) in Hs. lia. }
+  apply checkTime_ok; unfold availNum, tsbdMarginS in *.
+  - destruct (atoMS >? 0) eqn:E0; [lia|]. assert (atoMS = 0) by lia. subst atoMS. lia.
+  - destruct (atoMS >? 0) eqn:E0; [lia|]. assert (atoMS = 0) by lia. subst atoMS. lia.
+Qed.
+
+Theorem listed_served_time c atoMS now k :
+  startS c * 1000 <= now -> 0 <= tsbdS c -> ato c = Some atoMS -> 0 <= atoMS ->
+  let first := window_first r c atoMS now (1000 * tsbdS c) in
+  let last := window_last r c atoMS now in
+  first <= k <= last ->
+  (first < k \/ E r (first + 1) - S r (first + 1) <= tsbdMarginS * ts r) ->
+  S r k < two64 -> 0 <= startNr c -> startNr c + k < two32 ->
+  exists m, lookup r loopMS c ByTime (S r k) now = TOk m /\
+            newTime m = S r k /\ newDur m = u32 (E r k - S r k) /\ newNr m = startNr c + k.
+Proof.
+  intros Hnow Htsbd Hato Ha. cbv zeta. intros Hk Hshort Ht Hs Hn.
+  assert (Hk0 : 0 <= k) by (unfold window_first in Hk; lia).
+  rewrite lookup_time by (pose proof (S_nonneg r loopMS k W Hk0); lia).
+  rewrite (segMetaFromTime_spec r loopMS W) by exact Hk0.
+  rewrite Hato, (listed_available c atoMS now k Hnow Htsbd Ha Hk Hshort). cbn [timed].
+  eexists. split; [reflexivity|]. cbn [newTime newDur newNr]. rewrite sdur_SE.
+  repeat split. apply u32_id. lia.
+Qed.
+
+Theorem listed_served_number c atoMS now k :
+  startS c * 1000 <= now -> 0 <= tsbdS c -> ato c = Some atoMS -> 0 <= atoMS ->
+  let first := window_first r c atoMS now (1000 * tsbdS c) in
+  let last := window_last r c atoMS now in
+  first <= k <= last ->
+  (first < k \/ E r (first + 1) - S r (first + 1) <= tsbdMarginS * ts r) ->
+  S r k < two64 -> 0 <= startNr c -> startNr c + k < two32 ->
+  exists m, lookup r loopMS c ByNumber (startNr c + k) now = TOk m /\
+            newTime m = S r k /\ newDur m = u32 (E r k - S r k) /\ newNr m = startNr c + k.
+Proof.
+  intros Hnow Htsbd Hato Ha. cbv zeta. intros Hk Hshort Ht Hs Hn.
+  assert (Hk0 : 0 <= k) by (unfold window_first in Hk; lia).
+  rewrite lookup_number by lia.
+  rewrite (segMetaFromNr_spec r loopMS W) by exact Hk0.
+  rewrite Hato, (listed_available c atoMS now k Hnow Htsbd Ha Hk Hshort). cbn [timed].
+  eexists. split; [reflexivity|]. unfold metaOf. cbn [newTime newDur newNr]. rewrite sdur_SE.
+  repeat split. apply u64_id. pose proof (S_nonneg r loopMS k W Hk0). lia.
+Qed.
+
+Lemma window_last_ge c atoMS now : startS c * 1000 <= now -> 0 <= atoMS -> -1 <= window_last r c atoMS now.
+Proof.
+  intros H1 H2. unfold window_last. apply (lastFin_spec (tick r c atoMS now)). apply tick_nonneg; lia.
+Qed.
+
+Lemma next_checkTime c atoMS now : startS c * 1000 <= now -> 0 <= atoMS ->
+  exists ms, checkTime (E r (window_last r c atoMS now + 1) + startS c * ts r) (ts r) now (tsbdS c) (Some atoMS)
+             = TvTooEarly ms.
+Proof.
+  intros H1 H2. pose proof (window_last_ge c atoMS now H1 H2) as Hl.
+  pose proof (proj2 (edge_checkTime c atoMS now (tsbdS c) (window_last r c atoMS now + 1) H2 ltac:(lia))
+                    ltac:(lia)) as Hp.
+  destruct (checkTime _ _ _ _ _) as [|ms|]; cbn [phase] in Hp; try lia. now exists ms.
+Qed.
+
+Theorem next_too_early_time c atoMS now :
+  startS c * 1000 <= now -> ato c = Some atoMS -> 0 <= atoMS ->
+  let last := window_last r c atoMS now in
+  S r (last + 1) < two64 ->
+  exists ms, lookup r loopMS c ByTime (S r (last + 1)) now = TTooEarly ms.
+Proof.
+  intros Hnow Hato Ha. cbv zeta. intros Ht.
+  pose proof (window_last_ge c atoMS now Hnow Ha) as Hl.
+  rewrite lookup_time by (pose proof (S_nonneg r loopMS (window_last r c atoMS now + 1) W ltac:(lia)); lia).
+  rewrite (segMetaFromTime_spec r loopMS W) by lia.
+  rewrite Hato. destruct (next_checkTime c atoMS now Hnow Ha) as [ms ->]. now exists ms.
+Qed.
+
+Theorem next_too_early_number c atoMS now :
+  startS c * 1000 <= now -> ato c = Some atoMS -> 0 <= atoMS ->
+  let last := window_last r c atoMS now in
+  0 <= startNr c -> startNr c + (last + 1) < two32 ->
+  exists ms, lookup r loopMS c ByNumber (startNr c + (last + 1)) now = TTooEarly ms.
+Proof.
+  intros Hnow Hato Ha. cbv zeta. intros Hs Hn.
+  pose proof (window_last_ge c atoMS now Hnow Ha) as Hl.
+  rewrite lookup_number by lia.
+  rewrite (segMetaFromNr_spec r loopMS W) by lia.
+  rewrite Hato. destruct (next_checkTime c atoMS now Hnow Ha) as [ms ->]. now exists ms.
+Qed.
+
+(** ** (4) + (5) end to end: what the MPD lists is what the server answers *)
+
+Lemma nth_error_map_seqZ {A} (f : Z -> A) n : forall a j x,
+  nth_error (map f (seqZ a n)) j = Some x -> (j < n)%nat /\ x = f (a + Z.of_nat j).
+Proof.
+  induction n as [|n IH]; intros a j x H; destruct j as [|j]; cbn [seqZ map nth_error] in H; try discriminate.
+  - injection H as <-. split; [lia|]. f_equal. lia.
+  - apply IH in H. destruct H as [H1 ->]. split; [lia|]. f_equal. lia.
+Qed.
+
+Theorem mpd_listed_served c atoMS now j t d :
+  startS c * 1000 <= now -> 0 <= tsbdS c -> ato c = Some atoMS -> 0 <= atoMS ->
+  atoMS * ts r <= 1000 * en (segAt r 0) ->
+  let se := generateTimelineEntries r (calcWrapTimes loopMS c now (1000 * tsbdS c)) atoMS in
+  nth_error (expand (se_entries se)) j = Some (t, d) ->
+  ((0 < j)%nat \/ E r (se_startNr se + 1) - S r (se_startNr se + 1) <= tsbdMarginS * ts r) ->
+  t < two64 -> 0 <= startNr c -> startNr c + (se_startNr se + Z.of_nat j) < two32 ->
+  (exists m, lookup r loopMS c ByTime t now = TOk m /\
+             newTime m = t /\ newDur m = u32 d /\ newNr m = startNr c + (se_startNr se + Z.of_nat j)) /\
+  (exists m, lookup r loopMS c ByNumber (startNr c + (se_startNr se + Z.of_nat j)) now = TOk m /\
+             newTime m = t /\ newDur m = u32 d /\ newNr m = startNr c + (se_startNr se + Z.of_nat j)).
+Proof.
+  intros Hnow Htsbd Hato Ha Ha1. cbv zeta.
+  destruct (timeline_is_window c now (1000 * tsbdS c) atoMS Hnow ltac:(lia) Ha Ha1) as [Hempty Hwin].
+  cbv zeta in Hempty, Hwin.
+  set (se := generateTimelineEntries r (calcWrapTimes loopMS c now (1000 * tsbdS c)) atoMS) in *. clearbody se.
+  destruct (Z.lt_ge_cases (window_last r c atoMS now) 0) as [Hneg|Hpos].
+  - destruct (Hempty Hneg) as [_ ->]. destruct j; discriminate.
+  - destruct (Hwin Hpos) as (Hfl & Hnr & Hex & _). rewrite Hex, Hnr. unfold window_td.
+    intros Hnth Hshort Ht Hs Hn. apply nth_error_map_seqZ in Hnth. destruct Hnth as [Hj Htd].
+    unfold td in Htd. injection Htd as -> ->.
+    set (first := window_first r c atoMS now (1000 * tsbdS c)) in *.
+    assert (Hk : first <= first + Z.of_nat j <= window_last r c atoMS now) by lia.
+    assert (Hshort' : first < first + Z.of_nat j \/ E r (first + 1) - S r (first + 1) <= tsbdMarginS * ts r)
+      by (destruct Hshort; [left; lia|right; assumption]).
+    split.
+    + exact (listed_served_time c atoMS now (first + Z.of_nat j) Hnow Htsbd Hato Ha Hk Hshort' Ht Hs Hn).
+    + exact (listed_served_number c atoMS now (first + Z.of_nat j) Hnow Htsbd Hato Ha Hk Hshort' Ht Hs Hn).
+Qed.
+
+(** the segment after the last listed one (t = t_last + d_last, number = nr_last + 1) is too early *)
+Theorem mpd_next_too_early c atoMS now tsbdMS :
+  startS c * 1000 <= now -> 0 <= tsbdMS -> ato c = Some atoMS -> 0 <= atoMS ->
+  atoMS * ts r <= 1000 * en (segAt r 0) ->
+  let se := generateTimelineEntries r (calcWrapTimes loopMS c now tsbdMS) atoMS in
+  0 <= se_startNr se ->
+  se_lsi_start se + se_lsi_dur se < two64 -> 0 <= startNr c -> startNr c + (se_lsi_nr se + 1) < two32 ->
+  (exists ms, lookup r loopMS c ByTime (se_lsi_start se + se_lsi_dur se) now = TTooEarly ms) /\
+  (exists ms, lookup r loopMS c ByNumber (startNr c + (se_lsi_nr se + 1)) now = TTooEarly ms).
+Proof.
+  intros Hnow Htsbd Hato Ha Ha1. cbv zeta.
+  destruct (timeline_is_window c now tsbdMS atoMS Hnow Htsbd Ha Ha1) as [Hempty Hwin].
+  cbv zeta in Hempty, Hwin.
+  set (se := generateTimelineEntries r (calcWrapTimes loopMS c now tsbdMS) atoMS) in *. clearbody se.
+  intros Hne. destruct (Z.lt_ge_cases (window_last r c atoMS now) 0) as [Hneg|Hpos].
+  - destruct (Hempty Hneg) as [Hm _]. lia.
+  - destruct (Hwin Hpos) as (_ & _ & _ & -> & -> & ->).
+    replace (S r (window_last r c atoMS now) + (E r (window_last r c atoMS now) - S r (window_last r c atoMS now)))
+      with (S r (window_last r c atoMS now + 1))
+      by (rewrite (S_E_contiguous r loopMS W _ Hpos); lia).
+    intros Ht Hs Hn. split.
+    + exact (next_too_early_time c atoMS now Hnow Hato Ha Ht).
+    + exact (next_too_early_number c atoMS now Hnow Hato Ha Hs Hn).
+Qed.
+
 End Win.
+
+(** * A listed first entry that is no longer served
+
+    The table is 4 s, 30 s, 4 s (timescale 90000, loop 38 s); timeShiftBufferDepth 20 s, now = 34.5 s.
+    The window starts at 14.5 s; the newest segment that had ended then is segment 0 (ended at
+    4 s), so the MPD lists it first. The server keeps a segment for tsbd + 10 s after its end:
+    4 + 30 < 34.5, so it answers Gone. The first entry itself is short (4 s); what matters is the
+    duration of the segment after it (30 s > the 10 s margin). *)
+Definition long_rep : rep :=
+  {| segs := [ {| st := 0; en := 360000; snr := 1 |}; {| st := 360000; en := 3060000; snr := 2 |};
+               {| st := 3060000; en := 3420000; snr := 3 |} ];
+     ts := 90000 |}.
+Definition long_cfg : tcfg := {| startS := 0; startNr := 0; tsbdS := 20; ato := Some 0 |}.
+
+Lemma long_rep_wf : wf long_rep 38000.
+Proof. constructor; cbn; try lia; try discriminate; repeat constructor; cbn; lia. Qed.
+
+Lemma first_gone_witness :
+  exists r loopMS c atoMS now,
+    wf r loopMS /\ startS c * 1000 <= now /\ 0 <= tsbdS c /\ ato c = Some atoMS /\ 0 <= atoMS /\
+    atoMS * ts r <= 1000 * en (segAt r 0) /\
+    let se := generateTimelineEntries r (calcWrapTimes loopMS c now (1000 * tsbdS c)) atoMS in
+    let first := window_first r c atoMS now (1000 * tsbdS c) in
+    se_startNr se = first /\ first <= window_last r c atoMS now /\
+    hd_error (expand (se_entries se)) = Some (S r first, E r first - S r first) /\
+    E r first - S r first <= tsbdMarginS * ts r /\
+    lookup r loopMS c ByTime (S r first) now = TGone /\
+    lookup r loopMS c ByNumber (startNr c + first) now = TGone.
+Proof.
+  exists long_rep, 38000, long_cfg, 0, 34500. split; [exact long_rep_wf|].
+  vm_compute. repeat split; try reflexivity; discriminate.
+Qed.
